@@ -10,6 +10,10 @@ from concurrent.futures import ThreadPoolExecutor
 PROPS = [c["property_id"] for c in json.load(open("/verif/MANIFEST.json"))["checks"]]
 S2LINT = os.environ.get("S2LINT", "/verif/bin/s2lint")
 JOBS = int(os.environ.get("JOBS", "6"))
+# OWN_ONLY=1: run only the check of the property a change was written against (twenty times faster); what other
+# properties' checks said about the change is kept from the previous RESULTS.json
+OWN_ONLY = os.environ.get("OWN_ONLY", "") == "1"
+PREV = json.load(open("/verif/seeded/RESULTS.json")) if os.path.exists("/verif/seeded/RESULTS.json") else {}
 ENV = dict(os.environ, GOFLAGS="-mod=mod", GOPROXY="off", GOSUMDB="off", GOTOOLCHAIN="local")
 ENV.pop("GOWORK", None)
 # the scratch copies' build output goes to a cache of its own, removed at the end of the run
@@ -40,10 +44,14 @@ def one_seed(d):
         copy_tree(tree)
         if subprocess.run(["git", "apply", d + "/patch.diff"], cwd=tree, capture_output=True).returncode != 0:
             return name, {"error": "patch does not apply"}
-        rs = [run_prop(tree, p) for p in PROPS]
+        rs = [run_prop(tree, p) for p in (PROPS if not OWN_ONLY else [prop])]
     finally:
         shutil.rmtree(root, ignore_errors=True)
     det = {p: fails for p, rc, fails in rs if rc != 0}
+    if OWN_ONLY:
+        for p, fails in PREV.get(name, {}).get("detected_by", {}).items():
+            if p != prop:
+                det[p] = fails
     return name, {"property": prop, "detected_by_own_property": prop in det, "detected_by": det}
 
 def main():
@@ -66,7 +74,7 @@ def main():
             own = det.get(prop, [])
             others = sorted(k for k in det if k != prop)
             print(f"{name:8s} own={'YES' if prop in det else 'no ':3s} {', '.join(own)[:110]}  others={others}", flush=True)
-    if only and os.path.exists("/verif/seeded/RESULTS.json"):
+    if (only or OWN_ONLY) and os.path.exists("/verif/seeded/RESULTS.json"):
         merged = json.load(open("/verif/seeded/RESULTS.json"))
         merged.update(results)
     else:
